@@ -2,7 +2,7 @@
    CLOSE.  The property theorems, and nothing else; proofs in Proofs2*.v.
    All statements are over every list of events from the initial state. *)
 From Coq Require Import Lia.
-From VF Require Import Nfs41.Proofs2Examples.
+From VF Require Import Nfs41.Proofs2Examples Nfs41.Proofs2NoPanic.
 Open Scope N_scope.
 
 (* ---- one_owner_one_object (no hypothesis: the repaired code) -------------------------------------
@@ -74,6 +74,19 @@ Theorem lockcount_never_panics : forall cfg c0 evs,
     /\ (forall q, qvalid q -> LS.set_panic (LS.set table q) = false).
 Proof. exact lockcount_checks. Qed.
 Print Assumptions lockcount_never_panics.
+
+(* ... and as a theorem over histories: under the two hypotheses NO panic
+   that the model tracks is reachable at all -- lockCount ("Negative lock
+   count", "Lock-owner file still holds locks"), fileCount, share counts
+   (referenceCount), hold count ("release" of an idle incarnation), removal
+   of an incarnation that still has state or sessions, useCount of the
+   pool, a busy slot without its compound, ByteRangeLockSet.Set -- for any
+   interleaving of CLOSE, LOCK, LOCKU, FREE_STATEID, OPEN, OPEN_DOWNGRADE,
+   I/O in flight, lease expiry, CREATE_SESSION / DESTROY_* . *)
+Theorem no_panic : forall cfg c0 evs,
+  Forall event_valid evs -> never_shared (init cfg c0) evs -> st_panic (reachable cfg c0 evs) = false.
+Proof. exact no_panic_reachable. Qed.
+Print Assumptions no_panic.
 
 (* close_releases_exactly: CLOSE with a state ID that resolves to the
    open-owner file [o] answers NFS4_OK, raises no panic, removes from the
